@@ -1,5 +1,6 @@
 import TracklibVerif.Lemmas.MinCircle
 import TracklibVerif.Lemmas.MinCircleAcute
+import TracklibVerif.Lemmas.MinCircleThree
 import Mathlib.Algebra.Order.Field.Rat
 set_option linter.unusedSectionVars false
 /-! # C12 — `minCircle` (util/geometrics.py: `__welzl`, `__circle`), the routine behind `findStopsGlobal`'s size test
@@ -7,8 +8,9 @@ set_option linter.unusedSectionVars false
 The model is `Model/MinCircle.lean` (random draws as an explicit parameter, radii compared through their squares: exact
 arithmetic). Two findings of the check are theorems about the model here — `mincircle_not_enclosing`,
 `mincircle_none` (witness inputs and draw sequences replayed against tracklib in the corpus) — together with what the routine
-DOES guarantee: its leaf circles (`circle_two_minimal`, `circle_three`), the shape of every answer (`mincircle_answer`) and
-`mincircle_none_only_collinear`. Ordered field = exact arithmetic; on doubles the code's roots and the complex-number
+DOES guarantee: its leaf circles (`circle_two_minimal`, `circle_three`, `circle_three_minimal`), the shape of every answer
+(`mincircle_answer`), `mincircle_none_only_collinear`, `mincircle_enclosing_is_minimal` (an enclosing answer is the minimal circle),
+`mincircle_small` / `mincircle_three` (inputs of at most three fixes: always right). Ordered field = exact arithmetic; on doubles the code's roots and the complex-number
 circumcentre are rounded (not modelled). -/
 namespace TV.C12
 open TV.MinCircle
@@ -191,6 +193,28 @@ theorem mincircle_enclosing_is_minimal (eps : α) (draw : Nat → Nat) (pts : Li
   · obtain ⟨R', e, hR', _⟩ := mincircle_answer eps draw pts
     rw [h] at e
     exact base_minimal e.symm c' h0 (fun p hp => hc' p (hR' p (List.mem_of_mem_take hp)))
+
+/-- **At most three fixes: always right.** For an input of at most three fixes that `ENUCoords.__eq__` tells apart whenever
+they differ (no two different fixes within 0.0001 in all coordinates), and EVERY draw sequence: a circle returned by `minCircle`
+encloses every fix and is THE minimal enclosing circle (the early leaf `len(R) == 3` is then met only with `P` empty, where
+`__circle`'s answer — the minimal circle of its three points, `circle_three_minimal` — is what is wanted). With
+`mincircle_none_only_collinear`: on at most three fixes `minCircle` is either `None` (three collinear entries) or exact. The
+defect needs four fixes (`mincircle_not_enclosing`). -/
+theorem mincircle_three (eps : α) (draw : Nat → Nat) (pts : List (Pt α)) (hlen : pts.length ≤ 3)
+    (hsep : ∀ p ∈ pts, ∀ q ∈ pts, ptEq eps p q = true → p = q) (c : Circ α)
+    (h : (minCircleOfPoints eps draw pts).1 = .circ c) :
+    (∀ p ∈ pts, Enc c p) ∧ ∀ c' : Circ α, 0 ≤ c'.r2 → (∀ p ∈ pts, Enc c' p) → c.r2 ≤ c'.r2 := by
+  have henc : ∀ p ∈ pts, Enc c p := by
+    unfold minCircleOfPoints at h
+    rcases hw : welzl eps draw pts.length pts [] 0 with ⟨o, k'⟩
+    rw [hw] at h
+    simp only at h
+    subst h
+    exact (welzl_encloses_small eps draw pts hsep pts.length pts [] 0 c k' (by simpa using hlen) (fun p hp => hp)
+      (fun p hp => by cases hp) hw).2
+  refine mincircle_enclosing_is_minimal eps draw pts c h ?_
+  simp only [encloses, List.all_eq_true, decide_eq_true_eq]
+  exact henc
 
 /-- the certificate the driver evaluates on every answer (`enc`) is sound -/
 theorem encloses_sound (c : Circ α) (pts : List (Pt α)) (h : encloses c pts = true) : ∀ p ∈ pts, Enc c p := by
